@@ -235,7 +235,12 @@ void LayoutSession::checkC08(const char *when) {
         double oy = std::min(rs[i]->getMaxY(), rs[j]->getMaxY()) - std::max(rs[i]->getMinY(), rs[j]->getMinY());
         if (ox > 1e-3 && oy > 1e-3) { violate("C08", "node-overlap", "nodes-overlap", fmt("nodes %d,%d overlap %g x %g %s", i, j, ox, oy, ctx.c_str())); return; }
     }
-    auto allm = [&](size_t c) { std::vector<int> v = clusters[c].nodes; for (size_t d = 0; d < clusters.size(); d++) if (clusters[d].parent == (int)c) for (int i : clusters[d].nodes) v.push_back(i); return v; };
+    // all members of a cluster: its own nodes and those of every descendant cluster (parents always precede their children)
+    auto allm = [&](size_t c) {
+        std::vector<int> v; std::vector<bool> inSub(clusters.size(), false); inSub[c] = true;
+        for (size_t d = c; d < clusters.size(); d++) { if (d != c && clusters[d].parent >= 0 && inSub[(size_t)clusters[d].parent]) inSub[d] = true; if (inSub[d]) for (int i : clusters[d].nodes) v.push_back(i); }
+        return v;
+    };
     auto bb = [&](const std::vector<int> &v, double *b) { b[0] = b[2] = 1e18; b[1] = b[3] = -1e18; for (int i : v) { b[0] = std::min(b[0], rs[i]->getMinX()); b[1] = std::max(b[1], rs[i]->getMaxX()); b[2] = std::min(b[2], rs[i]->getMinY()); b[3] = std::max(b[3], rs[i]->getMaxY()); } };
     for (size_t a = 0; a < clusters.size(); a++) {
         std::vector<int> ma = allm(a);
@@ -451,7 +456,14 @@ Json genLayoutSession(Rng &r, const std::string &tier, int flavour /*0 constrain
                 Json keep = Json::arr(), child = Json::arr();
                 for (int i = 0; i < (int)mem.size(); i++) (i < k ? child : keep).push(mem[i]);
                 c0.set("nodes", keep);
-                Json cc = Json::obj(); cc.set("nodes", child); cc.set("parent", 0); clusters.push(cc);
+                Json cc = Json::obj(); cc.set("nodes", child);
+                if (r.chance(0.4)) {
+                    // three levels: an intermediate cluster that holds only the child cluster and no node of its own
+                    Json mid = Json::obj(); mid.set("nodes", Json::arr()); mid.set("parent", 0);
+                    if (r.chance(0.5)) mid.set("padding", (double)r.below(3) * 5);
+                    clusters.push(mid); cc.set("parent", (long)clusters.size() - 1);
+                } else cc.set("parent", 0);
+                clusters.push(cc);
             }
         }
     }
@@ -496,8 +508,9 @@ Json genLayoutSession(Rng &r, const std::string &tier, int flavour /*0 constrain
         for (size_t k = 0; k < ccs.size(); k++) if (ccs[k].str("type", "") == "align") { if (ccs[k].i("dim", 0) == dim) idx.push_back(base); base++; }
         if (idx.size() >= 2 && r.chance(0.5) && budget > 0) {
             bool dist = r.chance(0.5); double sep = (double)r.range(1, 5) * 20, b0 = (double)r.below(20) * 10;
-            for (size_t q = 0; q < idx.size(); q++) { double pos = b0 + q * sep + (!dist ? (double)r.below(3) * 10 * q : 0); for (auto &p : aligns[idx[q]].second) Wd(dim, p.first) = pos + p.second; }
-            Json c = Json::obj(); c.set("type", dist ? "dist" : "multisep"); c.set("dim", dim); c.set("sep", sep);
+            bool eq = !dist && r.chance(0.4);        // MultiSeparationConstraint with equality = true: exactly sep apart
+            for (size_t q = 0; q < idx.size(); q++) { double pos = b0 + q * sep + (!dist && !eq ? (double)r.below(3) * 10 * q : 0); for (auto &p : aligns[idx[q]].second) Wd(dim, p.first) = pos + p.second; }
+            Json c = Json::obj(); c.set("type", dist ? "dist" : "multisep"); c.set("dim", dim); c.set("sep", sep); if (eq) c.set("eq", true);
             Json aj = Json::arr(); for (int q : idx) aj.push(q); c.set("aligns", aj); ccs.push(c); budget--;
         }
     }
